@@ -759,7 +759,8 @@ func (res *Response) buildLocalResponse(ctx context.Context, stores map[*Peer]*D
 		}
 
 		// process virtual tables serially without go routines to maintain the correct order, ex.: from the sites table
-		if store.table.virtual != nil {
+		// (ask the requested table: the store of the sites table belongs to the status table, which is not virtual)
+		if store.table.virtual != nil || Objects.Tables[res.request.Table].virtual != nil {
 			res.buildLocalResponseData(ctx, store, resultcollector)
 
 			continue
